@@ -263,9 +263,11 @@ def _convert_timestamp_to_tz_unaware(val):
     else:
         arrow = to_arrow(val)
         if hasattr(arrow, "chunks"):
-            arr = pa.chunked_array([c.to_numpy() for c in arrow.chunks])
+            arr = pa.chunked_array(
+                [c.to_numpy(zero_copy_only=False) for c in arrow.chunks]
+            )
         else:
-            arr = arrow.to_numpy()
+            arr = arrow.to_numpy(zero_copy_only=False)
 
     return arr, orig_type
 
